@@ -41,6 +41,12 @@ import (
 type Case struct {
 	Index   int             `json:"index"`
 	Program proggen.Program `json:"program"`
+	// Known is set only on hand-written cases that reproduce a recorded
+	// finding (a difference from Go that ego's own tests pin, so it cannot be
+	// repaired here); their failure signature is "pinned-difference: <Known>".
+	// Generated cases never carry it, so a recorded finding cannot hide a
+	// failure of a generated program.
+	Known string `json:"known,omitempty"`
 }
 
 var (
@@ -224,6 +230,9 @@ func oracle(c Case) vkit.Outcome {
 			}
 		}
 		scope := mode
+		if c.Known != "" {
+			sig, scope = "pinned-difference: "+c.Known, "any mode"
+		}
 		out.Fail = &vkit.Failure{
 			Sig:      sig + " [" + scope + "]",
 			Observed: obs + "\nmode=" + mode + "\n--- program ---\n" + src,
